@@ -1,4 +1,5 @@
 import Glom.Lemmas.C10
+import Glom.Lemmas.C09
 import Glom.Model.C10Env
 /-
   C10 — M, And, Or, Not, Switch and Check decide like the boolean expressions denoted.
@@ -64,6 +65,35 @@ theorem c10_model_checks (env : Env) (hwf : WF env = true) (s : Spec) (t : V)
 theorem c10_ctor_checks (ct : ClassTable) (s : Spec) (t : V) (e : PyExc) (hc : ctorErr s = some e) :
     checkC10 ct s t (.ctor e.cls) = true := by
   unfold checkC10; rw [hc]; simp
+
+/-- **The boolean reading, exactly.**  For every constructible tree (any depth, any mix of M
+    comparisons, And / Or / Not / Switch with and without `default=`, Check, and the match-mode
+    atoms) and every target on which no comparison can raise (`calm`: a condition on tree and
+    target alone, `Glom/Spec/C09.lean`), the tree passes if and only if the boolean expression it
+    denotes is true — `conforms`: M comparisons by Python's comparison, And = all, Or = any,
+    Not = negation, Switch = the value spec of the first case whose key holds, each `default=`
+    turning "false" into "true" when it can be evaluated — and otherwise it is rejected with a
+    GlomError of the promised class: there is no third outcome. -/
+theorem c10_boolean_reading (env : Env) (hwf : WF env = true) (s : Spec) (t : V)
+    (hc : ctorErr s = none) (hd : C09.constDefaults s = true) (hcalm : C09.calm env.cls s t = true) :
+    ((∃ r, (eval env s t).1 = .ok r) ↔ C09.conforms env.cls s t = true) ∧
+    (C09.conforms env.cls s t = false →
+      ∃ e o, (eval env s t).1 = .error e ∧ (denote env.cls s t).1 = .reject o ∧ classOK env o e.cls = true) := by
+  have hnf := C09.calm_den env.cls s t hcalm
+  have hcd := C09.conf_den env.cls s t hc hd hnf
+  have hr := c10_refines env hwf s t hc
+  rcases hr.cases with ⟨a, l, h1, h2⟩ | ⟨e, og, l, h1, h2, hcl⟩ | ⟨e, l, h1, h2, hg⟩
+  · rw [h2] at hcd
+    have hconf : C09.conforms env.cls s t = true := by simpa [C09.isPass] using hcd.symm
+    refine ⟨⟨fun _ => hconf, fun _ => ⟨a, by rw [h1]⟩⟩, fun h => by rw [hconf] at h; cases h⟩
+  · rw [h2] at hcd
+    have hconf : C09.conforms env.cls s t = false := by simpa [C09.isPass] using hcd.symm
+    refine ⟨⟨?_, ?_⟩, ?_⟩
+    · rintro ⟨r, hr'⟩; rw [h1] at hr'; cases hr'
+    · intro h; rw [hconf] at h; cases h
+    · intro _
+      exact ⟨e, og, by rw [h1], by rw [h2], hcl⟩
+  · rw [h2] at hnf; simp [C09.isFault] at hnf
 
 /-! ### M -/
 
@@ -331,6 +361,52 @@ theorem c10_prog_checks (env : Env) (hwf : WF env = true) (steps : List Step)
     checkProg env.cls steps [] (runProg env steps []) = true :=
   prog_checks (WF.facts hwf) steps [] [] HeapInv.nil hl
 
+/-! ### copies of a spec object; type atoms -/
+
+/-- **Facts obligation** (re-checked on every run, by import-time introspection of /repo's
+    glom.matching): the objects the matching code recognises by *identity* — `_MISSING`, the
+    marker "no default given" of Match / And / Or / Switch / Optional, and `RAISE`, Check's —
+    come back from `copy.copy`, `copy.deepcopy` and a pickle round trip as the very same object
+    (or cannot be pickled at all); the only markers that do not are `M` and `T`
+    (`identityExempt`: the first is a defect of the pinned glom, the second harmless). -/
+theorem c10_copy_facts_wf : markersOK Generated.identityMarkers = true := by decide
+
+/-- **A copy of a spec decides like the spec**: a spec object that went through `copy.copy`,
+    `copy.deepcopy` or a pickle round trip gives every target the same outcome and runs the
+    same callables — for every marker table in which the markers survive (`c10_copy_facts_wf`
+    for this run's). -/
+theorem c10_copy_invariant (env : Env) (ids : List (String × String × Bool)) (h : markersOK ids = true)
+    (how : String) (hh : how ∈ ["copy", "deepcopy", "pickle"]) (s : Spec) (t : V) :
+    eval env (copySpec ids how s) t = eval env s t := by
+  rw [copySpec_id h hh]
+
+/-- **A class is a type atom, whatever its metaclass**: it passes exactly the instances
+    (`isinstance` now, on this target), yields the target, rejects with the type rule's error,
+    and no callable runs — in particular the class itself is not called.  (That `_glom_match`
+    tests `isinstance(spec, type)` before `callable(spec)` is the facts obligation below.) -/
+theorem c10_type_atom (env : Env) (hwf : WF env = true) (n : String) (t : V) :
+    eval env (.ty n) t =
+      ((if isInst env.cls t n then .ok t else .error (raiseAt env "_glom_match/type" 0)), []) ∧
+    classOK env .typ (raiseAt env "_glom_match/type" 0).cls = true := by
+  refine ⟨?_, (WF.facts hwf).raise_ok ("_glom_match/type", 0, .typ) (by simp [siteOrigins])⟩
+  simp only [eval]; split <;> rfl
+
+/-- … under every combinator: `Not(type)` passes exactly the non-instances -/
+theorem c10_not_type (env : Env) (hwf : WF env = true) (n : String) (t : V) :
+    (eval env (.not (.ty n)) t).1 =
+      (if isInst env.cls t n then .error (raiseAt env "Not.glomit" 0) else .ok t) := by
+  have hc := (c10_type_atom env hwf n t).2
+  rw [(c10_not env hwf (.ty n) t).1, (c10_type_atom env hwf n t).1]
+  cases isInst env.cls t n
+  · simp [classOK_glom hc]
+  · simp
+
+/-- **Facts obligation**: the first test of `_glom_match` is `isinstance(spec, type)` (the
+    extractor labels exactly that source text `"type"`), `callable(spec)` comes after it -/
+theorem c10_type_test_first :
+    Generated.glomMatchOrder.head? = some "type" ∧
+    Generated.glomMatchOrder.idxOf "type" < Generated.glomMatchOrder.idxOf "callable" := by decide
+
 /-! ### who rejected -/
 
 /-- **Every rejection by these combinators is a MatchError.**  A GlomError that leaves an
@@ -557,6 +633,27 @@ example : (eval genEnv (.check { validate := some (.one (some 0, "raises_value")
 example : (eval genEnv (.check { type_ := some (.one "int") }) (.bool true)).1 = .error ⟨"CheckError"⟩ := by
   decide
 example : (eval genEnv (.check { instanceOf := some (.one "int") }) (.bool true)).1 = .ok (.bool true) := by
+  decide
+
+-- type atoms whose metaclass is not `type`, under the combinators
+example : eval genEnv (.or [.and [.ty "Mapping", .val (.str "hit")] none, .val (.str "other")] none) (.dict [])
+    = (.ok (.str "hit"), []) := by decide
+example : eval genEnv (.not (.ty "Sequence")) (.list [.int 1, .int 2]) = (.error ⟨"MatchError"⟩, []) := by decide
+example : eval genEnv (.switch [(.ty "Integral", .val (.str "hit"))] (some (.const (.str "none")))) (.int 0)
+    = (.ok (.str "hit"), []) := by decide
+example : eval genEnv (.not (.ty "Color")) (.str "red") = (.ok (.str "red"), []) := by decide
+/-- what `copy.deepcopy` makes of `Or(int, str)` when `_MISSING` does not survive it: the failure
+    of the last child is swallowed and the marker comes back -/
+theorem c10_copy_needs_marker_identity :
+    (eval genEnv (copySpec [("_MISSING", "deepcopy", false)] "deepcopy" (.or [.ty "int", .ty "str"] none))
+      (.flt 5)).1 = .ok (.obj "_MISSING") := by decide
+
+-- the hypotheses of c10_boolean_reading on the example tree; and what `calm` excludes
+example : C09.constDefaults exAnd = true ∧ C09.calm genEnv.cls exAnd (.int 5) = true ∧
+    C09.conforms genEnv.cls exAnd (.int 5) = true ∧ C09.conforms genEnv.cls exAnd (.int 2) = false := by decide
+/-- without `calm`: `M > 3` on a str raises TypeError — neither a pass nor a rejection -/
+theorem c10_boolean_reading_needs_calm :
+    C09.calm genEnv.cls exAnd (.str "x") = false ∧ (eval genEnv exAnd (.str "x")).1 = .error ⟨"TypeError"⟩ := by
   decide
 
 -- a program: `base = (M > 0) & (M < 100); glom(5, base); ext = base & (M < 3); glom(5, ext); glom(5, base)`
